@@ -196,10 +196,10 @@ fn layer2(rng: &mut Rng, r: &mut Report, histories: u64, steps: u64) {
     let payee = PublicKey::from_secret_key(&secp, &SecretKey::from_slice(&[9; 32]).unwrap());
     for h in 0..histories {
         let mut cfg = WorldCfg::regtest(rng.bytes::<32>());
-        let hourly = rng.bool();
-        let pay_limit = rng.range(10_000, 5_000_000);
-        let fee_hourly = rng.bool();
-        let fee_limit = rng.range(500_000, 200_000_000); // msat
+        let mut hourly = rng.bool();
+        let mut pay_limit = rng.range(10_000, 5_000_000);
+        let mut fee_hourly = rng.bool();
+        let mut fee_limit = rng.range(500_000, 200_000_000); // msat
         cfg.policy.global_velocity_control = VelocityControlSpec {
             limit_msat: pay_limit,
             interval_type: if hourly { VelocityControlIntervalType::Hourly } else { VelocityControlIntervalType::Daily },
@@ -209,8 +209,10 @@ fn layer2(rng: &mut Rng, r: &mut Report, histories: u64, steps: u64) {
             interval_type: if fee_hourly { VelocityControlIntervalType::Hourly } else { VelocityControlIntervalType::Daily },
         };
         cfg.policy.max_invoices = 100_000;
-        let (pb, pn) = if hourly { (300, 12) } else { (3600, 24) };
-        let (fb, fnb) = if fee_hourly { (300, 12) } else { (3600, 24) };
+        let (mut pb, mut pn) = if hourly { (300, 12) } else { (3600, 24) };
+        let (mut fb, mut fnb) = if fee_hourly { (300, 12) } else { (3600, 24) };
+        // which control an operator reconfigured at the last restart ("" = none): the other one must keep its window
+        let mut reconfigured = "";
         let mut world = World::new(cfg);
         let mut pay_w = Window::new(pay_limit, pb, pn);
         let mut fee_w = Window::new(fee_limit, fb, fnb);
@@ -256,7 +258,9 @@ fn layer2(rng: &mut Rng, r: &mut Report, histories: u64, steps: u64) {
                             r.count("layer2.keysend.accepted");
                             since_restart_pay += 1;
                             if let Some(sum) = pay_w.accept(now, a) {
-                                let sig = if world.restarts > 0 && since_restart_pay <= 1000 {
+                                let sig = if reconfigured == "fee" {
+                                    "payment-velocity:window-exceeded-after-restart-that-reconfigured-the-fee-control"
+                                } else if world.restarts > 0 && since_restart_pay <= 1000 {
                                     "payment-velocity:window-exceeded-after-restart"
                                 } else {
                                     "payment-velocity:window-exceeded"
@@ -300,7 +304,7 @@ fn layer2(rng: &mut Rng, r: &mut Report, histories: u64, steps: u64) {
                             r.count("layer2.invoice.accepted");
                             since_restart_pay += 1;
                             if let Some(sum) = pay_w.accept(now, a) {
-                                let sig = if world.restarts > 0 { "payment-velocity:window-exceeded-after-restart" } else { "payment-velocity:window-exceeded" };
+                                let sig = if reconfigured == "fee" { "payment-velocity:window-exceeded-after-restart-that-reconfigured-the-fee-control" } else if world.restarts > 0 { "payment-velocity:window-exceeded-after-restart" } else { "payment-velocity:window-exceeded" };
                                 r.violation(sig, json!({"layer": 2, "op": "add_invoice", "limit_msat": pay_limit, "hourly": hourly, "t": now, "amount": a, "window_sum": sum.to_string(), "restarts": world.restarts, "trace_tail": trace.iter().rev().take(12).collect::<Vec<_>>() }));
                             }
                             if trace.len() < 200 { trace.push(json!(["invoice", now, a, true])); }
@@ -322,7 +326,7 @@ fn layer2(rng: &mut Rng, r: &mut Report, histories: u64, steps: u64) {
                             r.count("layer2.onchain.accepted");
                             since_restart_fee += 1;
                             if let Some(sum) = fee_w.accept(now, fee_sat * 1000) {
-                                let sig = if world.restarts > 0 { "fee-velocity:window-exceeded-after-restart" } else { "fee-velocity:window-exceeded" };
+                                let sig = if reconfigured == "payment" { "fee-velocity:window-exceeded-after-restart-that-reconfigured-the-payment-control" } else if world.restarts > 0 { "fee-velocity:window-exceeded-after-restart" } else { "fee-velocity:window-exceeded" };
                                 r.violation(sig, json!({"layer": 2, "op": "check_onchain_tx", "limit_msat": fee_limit, "hourly": fee_hourly, "t": now, "fee_msat": fee_sat * 1000, "window_sum": sum.to_string(), "restarts": world.restarts, "approvals_since_restart": since_restart_fee, "trace_tail": trace.iter().rev().take(12).collect::<Vec<_>>() }));
                             }
                             if trace.len() < 200 { trace.push(json!(["onchain", now, fee_sat * 1000, true])); }
@@ -333,8 +337,36 @@ fn layer2(rng: &mut Rng, r: &mut Report, histories: u64, steps: u64) {
                     r.distinct_hash(vls_verif::rng::fnv_str(&format!("l2:onchain:{}:{}", world.restarts.min(3), fee_sat * 1000 > fee_limit)));
                 }
                 3 => {
+                    // one restart in three comes with a changed configuration of exactly ONE of the two controls
+                    // (another limit, or the other interval type): that control starts over, as `update_spec`
+                    // documents, and the other one - whose configuration is what it was - must keep what it counted
+                    reconfigured = "";
+                    if rng.chance(1, 3) {
+                        if rng.bool() {
+                            reconfigured = "fee";
+                            if rng.bool() { fee_limit = rng.range(500_000, 200_000_000); } else { fee_hourly = !fee_hourly; }
+                            world.cfg.policy.fee_velocity_control = VelocityControlSpec {
+                                limit_msat: fee_limit,
+                                interval_type: if fee_hourly { VelocityControlIntervalType::Hourly } else { VelocityControlIntervalType::Daily },
+                            };
+                            let t = if fee_hourly { (300, 12) } else { (3600, 24) };
+                            fb = t.0; fnb = t.1;
+                            fee_w = Window::new(fee_limit, fb, fnb);
+                        } else {
+                            reconfigured = "payment";
+                            if rng.bool() { pay_limit = rng.range(10_000, 5_000_000); } else { hourly = !hourly; }
+                            world.cfg.policy.global_velocity_control = VelocityControlSpec {
+                                limit_msat: pay_limit,
+                                interval_type: if hourly { VelocityControlIntervalType::Hourly } else { VelocityControlIntervalType::Daily },
+                            };
+                            let t = if hourly { (300, 12) } else { (3600, 24) };
+                            pb = t.0; pn = t.1;
+                            pay_w = Window::new(pay_limit, pb, pn);
+                        }
+                        r.count(&format!("layer2.restart.reconfigured_{}", reconfigured));
+                    }
                     match world.restart() {
-                        Ok(()) => { r.count("layer2.restart"); since_restart_pay = 0; since_restart_fee = 0; if trace.len() < 200 { trace.push(json!(["restart", now])); } }
+                        Ok(()) => { r.count("layer2.restart"); since_restart_pay = 0; since_restart_fee = 0; if trace.len() < 200 { trace.push(json!(["restart", now, reconfigured])); } }
                         Err(e) => { r.inconclusive(&format!("restart failed: {}", e)); break; }
                     }
                 }
@@ -369,12 +401,14 @@ fn main() {
     report.require("layer2.invoice.accepted", 50);
     report.require("layer2.onchain.accepted", 50);
     report.require("layer2.restart", 20);
+    report.require("layer2.restart.reconfigured_fee", 3);
+    report.require("layer2.restart.reconfigured_payment", 3);
     finish(
         report,
         FinishSpec {
             cli: &cli,
             level: "exploration",
-            rule: "random non-decreasing timestamp/amount sequences on VelocityControl (hourly/daily/unlimited/custom intervals) and on a real Node (add_keysend, add_invoice, check_onchain_tx, restart, heartbeat) under a manual clock; oracle = sum of accepted amounts in the closed window [t-(N-1)*bucket, t] <= limit after every acceptance. distinct = (layer, control kind/op, bucket count or restart count, bucket phase, amount class, outcome)",
+            rule: "random non-decreasing timestamp/amount sequences on VelocityControl (hourly/daily/unlimited/custom intervals) and on a real Node (add_keysend, add_invoice, check_onchain_tx, restart - one in three with a changed configuration of exactly one of the two controls, which starts that control over and must leave the other one's window alone -, heartbeat) under a manual clock; oracle = sum of accepted amounts in the closed window [t-(N-1)*bucket, t] <= limit after every acceptance. distinct = (layer, control kind/op, bucket count or restart count, bucket phase, amount class, outcome)",
             assumptions: vec![
                 "timestamps are non-decreasing (as the property states)".into(),
                 "unlimited controls are not 'a limit configured' and are only exercised, not judged".into(),
